@@ -217,3 +217,9 @@ def run(ck):
     if ck.has("futures-io") or True:
         common.import_results(ck, C17, "2", "register_waker", "5")
         common.import_results(ck, C17, "2", "IoLoopInner", "5")
+    # a failed adapt_io() must not take the fd of a healthy source out of the poller (shared with C15.4 / C16.2), and
+    # the wait is really made on every poll, whatever the timers say (shared with C05.1)
+    from props import C15 as _C15, C05 as _C05
+
+    common.import_results(ck, _C15, "4", "IoLoopInner", "5")
+    common.import_results(ck, _C05, "1", "Poll::poll", "5")
